@@ -240,8 +240,9 @@ def c15_3(ck, prog):
             lambda ev, ctx: 'send' if ev['ev'] == 'call' and ev['e'].get('callee') == 'bus_transaction_send'
             and is_ref(ev['e']['args'][2], 'addressed_recipient') else None)
     som = prog.fn('send_one_message', 'bus/dispatch.c')
-    fd_gate(prog, r, som, 'connection',
-            lambda ev, ctx: 'send' if ev['ev'] == 'call' and ev['e'].get('callee') == 'bus_transaction_send' else None)
+    fd_gate(prog, r, som, lib.recipient_param(som),
+            lambda ev, ctx: 'send' if ev['ev'] == 'call' and ev['e'].get('callee') == 'bus_transaction_send' else None,
+            label='connection')
     C = 'dbus/dbus-connection.c'
     for fname, sink in (('dbus_connection_send_preallocated', '_dbus_connection_send_preallocated_and_unlock'),
                         ('dbus_connection_send', '_dbus_connection_send_and_unlock'),
